@@ -627,6 +627,9 @@ def number_texts():
     for a in ds:
         out += [a, '.' + a, a + '.' + a]
         for b in ds: out += [a + b, a + '.' + a + b, a + b + '.' + a]
+    # long numerals: the written value must be the correctly rounded double (beyond 15-17 significant digits a hand-rolled accumulator is not)
+    out += ['9223372036854775807', '12345678901234567890', '99999999999999999999', '123456789012345678', '18014398509481985', '9007199254740993',
+            '3.14159265358979323846', '123456789.123456789', '100000000000000000000000', '0.1', '1.50', '00012']
     return sorted(set(out))
 
 
